@@ -8,7 +8,7 @@ TECHNIQUE = "deterministic simulation of two real AEs: seeded user scripts x thr
 RULE = (
     "a case = one acceptor AE and 1-2 requestor AEs (all real pynetdicom code) driven by seeded scripts of public-API "
     "actions on both sides (DIMSE ops, release, abort, simultaneous release/abort from two user threads, handler-initiated "
-    "abort/release, AE.shutdown) under a seeded schedule; two thirds fault-free (strict oracle), one third with "
+    "abort/release (immediately or after sleeping), a second user thread releasing/aborting while the first waits for a DIMSE response, AE.shutdown) under a seeded schedule, plus 84 directed cells (hand-placed races and flow-control stalls); two thirds of the seeded cases fault-free (strict oracle), one third with "
     "reset/stall/thread-stall faults (relaxed pairing); non-trivial = at least one association was negotiated and a user "
     "release/abort action raced other activity (two terminal actions, handler action, or fault fired); distinct = distinct run digests"
 )
